@@ -566,6 +566,41 @@ theorem no_deadlock_when_answering {B I : Type} (acts : List (Handover.Act B I))
   unfold frun at *
   rw [List.foldl_append]; exact hfin
 
+open HandoverFine in
+/-- **what the GUI sees of one go, at the granularity of the code**: the search thread performing the
+    reports of its run (any game, clock, ordering, outcome) and the I/O thread, interleaved in ANY way
+    at the level of lock / send / print / drain / close: standard output is the first `k` info lines of
+    the run, then — once answered — one bestmove whose board the run has sent -/
+theorem go_stdout_comes_from_the_search_micro {P O : Type} (g : Game P) (ord : Oracle P O) (fuel : Nat) (root : P)
+    (s : SS P O) (hs : s.reports = #[]) (evs : List FEv) :
+    ∃ shown : List Info, shown <+: infosOf (outState (getBestMove g ord fuel root s)).reports ∧
+      ((frun (actsOf (outState (getBestMove g ord fuel root s)).reports) evs).mpc ≠ .fin →
+        (frun (actsOf (outState (getBestMove g ord fuel root s)).reports) evs).out = shown.map Handover.Line.info) ∧
+      ((frun (actsOf (outState (getBestMove g ord fuel root s)).reports) evs).mpc = .fin →
+        ∃ b, (frun (actsOf (outState (getBestMove g ord fuel root s)).reports) evs).out
+                = shown.map Handover.Line.info ++ [Handover.Line.best b] ∧
+             Report.sent b ∈ (outState (getBestMove g ord fuel root s)).reports.toList) := by
+  have hp := getBestMove_paired g ord fuel root s hs
+  generalize outState (getBestMove g ord fuel root s) = sf at hp ⊢
+  obtain ⟨rest, hacts, hopen, hfin⟩ := go_output_under_every_schedule_of_micro_steps (actsOf sf.reports) evs
+  generalize frun (actsOf sf.reports) evs = st at hacts hopen hfin ⊢
+  have hpre : Handover.infos st.done <+: (infosOf sf.reports).map Handover.Line.info := by
+    rw [← infos_actsOf sf hp, hacts]; exact infos_prefix st.done rest
+  have hshown : Handover.infos st.done = ((infosOf sf.reports).take (Handover.infos st.done).length).map Handover.Line.info := by
+    rw [List.map_take]; exact List.prefix_iff_eq_take.mp hpre
+  refine ⟨(infosOf sf.reports).take (Handover.infos st.done).length, List.take_prefix .., ?_, ?_⟩
+  · intro h; rw [hopen h]; exact hshown
+  · intro h
+    obtain ⟨b, early, late, hout, hdone, hlast, _⟩ := hfin h
+    refine ⟨b, by rw [hout, ← hshown], ?_⟩
+    have hb : b ∈ Handover.boards early := List.mem_of_getLast? hlast
+    have hb' : b ∈ Handover.boards (actsOf sf.reports) := by
+      rw [hacts, hdone, Handover.boards_append, Handover.boards_append]
+      exact List.mem_append_left _ (List.mem_append_left _ hb)
+    rcases boards_actsAux sf.reports.toList none b hb' with h' | h'
+    · cases h'
+    · exact h'
+
 /-- the race of defect D13 at the micro level: the improvement passed the clock check (`want`), the
     I/O thread answers first; the search thread then gets the lock, finds the channel closed and
     ends without printing -/
